@@ -1250,6 +1250,7 @@ WATCH_ATTRS = {
     "connected", "will_close", "close_when_flushed", "total_outbufs_len", "requests", "request", "socket", "_fileno",
     "sent_continue", "outbufs", "accepting", "connecting", "_map", "active_channels", "current_outbuf_count",
     "expect_continue", "headers_finished", "completed", "empty", "close_on_finish", "error", "sendbuf_len",
+    "_flush_some", "_flush_some_if_lockable",     # which flush function handle_write / write_soon select (not only call)
 }
 WATCH_NAMES = {"_DISCONNECTED", "EWOULDBLOCK", "ECONNABORTED", "EAGAIN", "EINTR", "ENOTCONN", "EBADF",
                "_reraised_exceptions", "ClientDisconnected", "OSError", "Exception", "TypeError", "map", "fd", "ac"}
@@ -1512,7 +1513,7 @@ def detect_wc_close(src_dir):
 
 
 # the signature of the modelled methods on the tree the model was written against (see shape_signature;
-# /repo at da3bf3a, i.e. with the repairs of F17 and F18); the instructions of Model/ChanFault.v
+# /repo at 8bcf05e, i.e. with the repairs of F17 and of both halves of F18); the instructions of Model/ChanFault.v
 # transliterate exactly these statements
 EXPECTED_SHAPE = {'channel.py:HTTPChannel.__init__': ['w:outbufs', 'w:sendbuf_len call:getsockopt()', 'n:map call:__init__()', 'w:connected const:True', 'w:requests'],
  'channel.py:HTTPChannel._flush_exception': ['if(){',
@@ -1531,7 +1532,7 @@ EXPECTED_SHAPE = {'channel.py:HTTPChannel.__init__': ['w:outbufs', 'w:sendbuf_le
                                              'return(const:False const:False)'],
  'channel.py:HTTPChannel._flush_outbufs_below_high_watermark': ['if(r:total_outbufs_len cmp:Gt){',
                                                                 'with(self.outbuf_lock){',
-                                                                'const:False call:_flush_exception(do_close=False)',
+                                                                'r:_flush_some const:False call:_flush_exception(do_close=False)',
                                                                 'if(){',
                                                                 'call:pull_trigger()',
                                                                 'call:wait()',
@@ -1618,8 +1619,10 @@ EXPECTED_SHAPE = {'channel.py:HTTPChannel.__init__': ['w:outbufs', 'w:sendbuf_le
                                         'w:connected const:False',
                                         '}'],
  'channel.py:HTTPChannel.handle_write': ['if(not r:requests){',
+                                         'r:_flush_some_if_lockable',
                                          '}else{',
                                          'if(r:total_outbufs_len cmp:GtE){',
+                                         'r:_flush_some_if_lockable',
                                          '}else{',
                                          'const:None',
                                          '}',
@@ -1761,7 +1764,7 @@ EXPECTED_SHAPE = {'channel.py:HTTPChannel.__init__': ['w:outbufs', 'w:sendbuf_le
                                        '}',
                                        'w:total_outbufs_len',
                                        'if(r:total_outbufs_len cmp:GtE){',
-                                       'const:False call:_flush_exception(do_close=False)',
+                                       'r:_flush_some const:False call:_flush_exception(do_close=False)',
                                        'if(bool:Or not r:total_outbufs_len cmp:GtE){',
                                        'call:pull_trigger()',
                                        '}',
